@@ -23,7 +23,7 @@ INFO = dict(
   assumptions=['A1, A3'],
 )
 EXPECT_COVERS = ['whenany-precompleted-failure-then-success', 'whenany-late-failure-after-success', 'whenall-empty',
-                 'whenall-failure-before-all-done', 'unwrap-inner-failure', 'map-skipped-on-failure', 'continuation-raises']
+                 'whenall-failure-before-all-done', 'unwrap-inner-failure', 'map-skipped-on-failure', 'continuation-raises', 'map-function-raises']
 
 
 def jobs(tier):
@@ -156,9 +156,11 @@ def make_body(job):
       if raises: cover('continuation-raises')
     elif op == 'map':
       src = AsyncResult(); ok = bool(choose('ok', 2)); pre = bool(choose('pre', 2)); inner_async = bool(choose('inner_async', 2))
-      calls = []; e0 = Exception('src')
+      fn_raises = bool(choose('fn_raises', 2))
+      calls = []; e0 = Exception('src'); boom = Exception('fn')
       def fn(v):
         calls.append(v)
+        if fn_raises: raise boom
         if inner_async:
           a = AsyncResult(); gevent.spawn_later(1, a.set, v * 2); return a
         return v * 2
@@ -166,10 +168,18 @@ def make_body(job):
         if ok: src.set(21)
         else: src.set_exception(e0)
       if pre: fire()
-      m = src.Map(fn)
+      # the mapping function runs as a ContinueWith continuation: what it raises is captured in the returned result and
+      # never escapes from Map() itself, whether or not the source was complete at call time
+      try: m = src.Map(fn)
+      except Exception as ex:
+        check('map.function-error-captured-not-raised', False); m = None
       if not pre: gevent.spawn_later(fresh_real('delay', 0, 3, lo_strict=True), fire)
       gevent.sleep(6)
-      if ok:
+      if m is None: pass
+      elif ok and fn_raises:
+        cover('map-function-raises')
+        check('map.function-error-captured', calls == [21] and m.ready() and m.exception is boom)
+      elif ok:
         check('map.applied', calls == [21] and m.ready() and m.successful() and m.value == 42)
       else:
         cover('map-skipped-on-failure')
